@@ -54,7 +54,8 @@ func (p *c03) Bounds(tier string) map[string]interface{} {
 func c03Stores() []string {
 	out := append(append([]string{}, store.Impls...), "reflect-slice", "node-slice")
 	out = append(out, store.StructImpls...)
-	return append(out, store.StructValImpls...)
+	out = append(out, store.StructValImpls...)
+	return append(out, "node-structembed")
 }
 
 func c03Bounds(tier string) (int, int) {
